@@ -177,6 +177,11 @@ def rule_validity(ctx, mod, f):
                 if not invalid and hi <= 0 and p.kind == "raise":
                     ok, why = False, "valid name rejected with %r" % p.value
                     break
+                if p.kind == "return" and hi >= 1:
+                    # the answer was given without ever ruling out a foreign character in the tail: names that have one
+                    # take this path too, and are accepted
+                    ok, why = False, "answers %r on a path that never looks whether the tail holds anything but '#' and 'b': a malformed name is accepted" % (p.value,)
+                    break
             ctx.check(ok, R, "%s.rejects[%s]" % (fname, hname), _loc(fi), "%s(%s<any tail>)" % (fname, hname), why)
 
 
@@ -308,14 +313,49 @@ def rule_enharmonic(ctx, mod, f):
         if args[0] is b:
             return Lin.of(pb)
         raise CannotDecide("note_to_int applied to something other than an argument")
-    paths = paths_of(ctx.repo, fi, [a, b], summaries={M + ".note_to_int": n2i})
-    d = Lin.of(pa) - Lin.of(pb)
-    ok, why = len(paths) == 2, "expected exactly the two outcomes equal / unequal, got %d paths" % len(paths)
-    if ok:
-        for p in paths:
-            lo, hi = p.interp.lin_interval(d)
-            equal = (lo, hi) == (0, 0)
-            if p.kind != "return" or p.value is not equal:
-                ok, why = False, "returns %r on the path where pitch classes are %s" % (
-                    p.value, "equal" if equal else "unequal")
-    ctx.check(ok, R, "is_enharmonic", _loc(fi), "is_enharmonic(note1, note2)", why)
+    try:
+        paths = paths_of(ctx.repo, fi, [a, b], summaries={M + ".note_to_int": n2i})
+    except CannotDecide:
+        paths = None  # is_enharmonic does not go through note_to_int of its two arguments: judged on names below
+    if paths is not None:
+        d = Lin.of(pa) - Lin.of(pb)
+        ok, why = len(paths) == 2, "expected exactly the two outcomes equal / unequal, got %d paths" % len(paths)
+        if ok:
+            for p in paths:
+                lo, hi = p.interp.lin_interval(d)
+                equal = (lo, hi) == (0, 0)
+                if p.kind != "return" or p.value is not equal:
+                    ok, why = False, "returns %r on the path where pitch classes are %s" % (
+                        p.value, "equal" if equal else "unequal")
+        ctx.check(ok, R, "is_enharmonic", _loc(fi), "is_enharmonic(note1, note2)", why)
+    # on names, with the real code: true exactly when the pitch classes are equal -- also across the B/C and E/F lines,
+    # and for names that go round the octave
+    accs = ["", "#", "b", "##", "bb"]
+    names = [l + x for l in "CDEFGAB" for x in accs]
+    special = ["B#", "Cb", "E#", "Fb", "A###", "C" + "#" * 12, "C" + "b" * 12, "D" + "#" * 13, "C#b", "Gbbbb"]
+    natural = {"C": 0, "D": 2, "E": 4, "F": 5, "G": 7, "A": 9, "B": 11}
+
+    def pc_(n):
+        return (natural[n[0]] + n[1:].count("#") - n[1:].count("b")) % 12
+    pairs = [(x, y) for x in names for y in names] if ctx.tier == "thorough" else [(x, y) for x in names for y in names[::3]]
+    pairs += [(x, y) for x in special for y in special + ["C", "B", "E", "F"]] + [(y, x) for x in special for y in ["C", "B", "E", "F"]]
+    bad = []
+
+    def go(it):
+        out = []
+        for x, y in pairs:
+            out.append(it.call_function(fi, [x, y], {}))
+        return out
+    from ..engine.absint import explore, Interp
+    try:
+        ps = explore(lambda ch: Interp(ctx.repo, ch), go)
+    except CannotDecide as e:
+        raise AnalysisError("is_enharmonic on names: %s" % e)
+    if len(ps) != 1 or ps[0].kind != "return":
+        bad.append(("outcome", [(p.kind, p.value) for p in ps][:2]))
+    else:
+        for (x, y), r in zip(pairs, ps[0].value):
+            if r is not (pc_(x) == pc_(y)):
+                bad.append((x, y, r))
+    ctx.check(not bad, R, "is_enharmonic[names]", _loc(fi), "is_enharmonic(x, y) for %d pairs of names" % len(pairs),
+              "%d answers differ from 'pitch classes equal', e.g. %s" % (len(bad), bad[:4]))
